@@ -305,7 +305,7 @@ def t_pda_family(acc, family, N, ns, limits, shard, nshard, stack=('x', 'y')):
     if family == 'fan':
         gen = [(0, pda.fan_instance(8))]
     else:
-        gen = {'multichar': c09.multichar_family, 'pushpop': pda.multichar_pushpop_family, 'cyc': lambda: pda.cyc_family(3, front=True)}[family]()
+        gen = {'multichar': c09.multichar_family, 'pushpop': pda.multichar_pushpop_family, 'stackfree': pda.stackfree_family, 'stackfree2': lambda: pda.stackfree_family(3, 2, 3), 'cyc': lambda: pda.cyc_family(3, front=True)}[family]()
     for idx, spec in gen:
         if idx % nshard == shard:
             check_pda(acc, spec, N, ns, tuple(limits), tuple(stack))
@@ -360,6 +360,8 @@ def plan(tier, seed):
     add('t_pda_family', 1, family='multichar', N=3, ns=[0, 1, 2, 3], limits=[5, 8], stack=['A', 'B', 'AB'])
     add('t_pda_family', 1, family='multichar', N=2, ns=[0, 1, 2], limits=[8], stack=['γ', 'Ω', 'γΩ'])
     add('t_pda_family', 1, family='cyc', N=2, ns=[0, 1, 2], limits=[8, 60])
+    add('t_pda_family', 16, family='stackfree', N=5, ns=[0, 1, 2, 3, 5], limits=[8])      # wave 6: 9 180 stack-free PDAs with 3 states, 4 moves
+    add('t_pda_family', 16, family='stackfree2', N=3, ns=[0, 2, 3], limits=[8])
     add('t_pda_family', 4, family='pushpop', N=4, ns=[0, 2, 3, 4], limits=[8], stack=['A', 'B', 'AB', '$'])
     add('t_pda_family', 1, family='pushpop', N=3, ns=[3], limits=[8], stack=['γ', 'Ω', 'γΩ', '$'])
     B = [0, 1, 2, 4, 8, 1000]
@@ -373,4 +375,4 @@ def plan(tier, seed):
               'TM': 'TM(0,2), TM(1,2), TM(1,3), TM(2,2) {} x budgets 0,1,2,4,8(,1000)'.format('stride 1/8' if q else 'all')}
     return {'tasks': tasks, 'bounds': bounds, 'exhaustive': True,
             'rule': 'every object of the six kinds inside the bounds x every bound n x every limit/budget: enumeration vs the library acceptance test on all of Sigma^<=n (as C02 is worded), words checked for length and alphabet, generate_language vs the specific enumerator; PDA equality only under the closure premise (decided by explicit configuration search), otherwise subset of the reference language; non-trivial = some but not all words accepted',
-            'assumptions': ['the acceptance tests themselves are judged by C01/C05/C07/C09/C11', 'wave 5 PDA families: stack symbols A, B, AB and outside latin-1; coprime epsilon cycles; one fan instance at limit 1400 whose set closures have 1278 configurations (words <= 9)']}
+            'assumptions': ['the acceptance tests themselves are judged by C01/C05/C07/C09/C11', 'wave 5 PDA families: stack symbols A, B, AB and outside latin-1; coprime epsilon cycles; one fan instance at limit 1400 whose set closures have 1278 configurations (words <= 9)', 'wave 6: all epsilon-NFAs with 3 states and exactly 4 (one letter) / 3 (two letters) transitions written as PDAs that never touch the stack']}
